@@ -129,6 +129,14 @@ Fail(g) ==
     /\ RunnerContinues(g)
     /\ UNCHANGED <<slotN, localN, remaining, delayQ, nerrors, scopeEnd>>
 
+(* Item and ErrPush as one step (an item whose handling reports an error and carries on). *)
+ItemErr(g) ==
+    /\ loc[g] = "running"
+    /\ localN[g] > 0
+    /\ localN' = [localN EXCEPT ![g] = @ - 1]
+    /\ nerrors' = nerrors + 1
+    /\ UNCHANGED <<loc, runner, atask, slotN, remaining, delayQ, scopeEnd>>
+
 (* Item, ErrPush and Fail as one step (the data-level model takes them together). *)
 ItemFail(g) ==
     /\ loc[g] = "running"
@@ -206,7 +214,7 @@ ScopeEnd ==
 PNext ==
     \/ \E g \in Groups : ActBegin(g) \/ SendLocal(g) \/ Send(g) \/ ActEnd(g) \/ Item(g) \/ Fail(g)
                          \/ SlotPark(g) \/ SlotSwap(g) \/ TaskStart(g) \/ Dec(g) \/ DrainEmpty(g)
-                         \/ ItemFail(g)
+                         \/ ItemFail(g) \/ ItemErr(g)
     \/ \E a, d \in Groups : DelayPop(a, d)
     \/ ErrPush
     \/ ScopeEnd
